@@ -1,11 +1,13 @@
 import LLRP.Model.Discover
 import LLRP.Proofs.Discover
 import LLRP.Gen.Funcs
+import LLRP.Proofs.SeqDiscover
 /-!
 # C16 — Discovery enumerates exactly the host addresses of each configured subnet
 
 `hosts a len` is the sequence `ipGenerator` sends for the network `a/len` as `net.ParseCIDR` delivers it
-(`Model.Discover`, same bit operations as the source; tied to the code by the differential correspondence).
+(`Model.Discover`, same bit operations as the source; proved to be what the go2seq translation of `ipGenerator` sends —
+`src_ipGenerator`, `src_hosts` — and additionally tied to the code by the differential correspondence).
 `Gen.driver_computeNetSz` is the mechanical translation of `computeNetSz`. All theorems are for every 32-bit
 address (aligned or not) and every prefix length in the stated range.
 -/
@@ -203,5 +205,47 @@ example : allReturn 8 (genInit 3232235886 32 0 0 false true true) = true := by d
 example : allReturn 8 (genInit 3232235886 32 0 0 false true false) = false := by decide   -- unrepaired code: blocked
 example : allReturn 8 (genInit 3232235886 24 4 4 false true true) = true := by decide
 example : allReturn 8 (genInit 3232235886 24 4 4 false false true) = false := by decide   -- not cancelled, nobody receives
+
+/-! ## the model is the source
+
+`Gen.driver_ipGenerator` is the go2seq translation of `ipGenerator` (regenerated from `discover.go` on every run; the
+`for` loop is a recursion on a fuel argument, each `select` asks the environment which case proceeds).
+`SeqGlue.genEnv a len stop` is the `*net.IPNet` with address `a` and the mask of prefix length `len`; a send appends to
+the World's `sent` list; the context is seen to have ended when `stop k` holds after `k` sends. -/
+
+/-- **Source = model**, every address, every prefix length, every cancellation point: with fuel for a whole /2 the
+translated `ipGenerator` returns, having sent `gen a len` in order up to the point where the context ended. -/
+theorem src_ipGenerator (a len : Nat) (ha : a < 4294967296) (hl : len ≤ 32) (stop : Nat → Bool)
+    (fuel : Nat) (hf : 4294967296 ≤ fuel) :
+    Gen.driver_ipGenerator (SeqGlue.genEnv a len stop) fuel ⟨[]⟩ () () ()
+      = some ⟨SeqGlue.sendAll stop [] ((gen a len).map Int.ofNat)⟩ :=
+  SeqGlue.src_ipGenerator_run a len ha hl stop fuel hf
+
+/-- never cancelled, on the network `net.ParseCIDR` delivers for `a/len` (its IP is the masked address): the translated
+source sends exactly `hosts a len`, each once, in order — `hosts_exact`, `hosts_nodup`, `hosts_inside`, `hosts_31_32`
+and `estimate_exact` are statements about that list. -/
+theorem src_hosts (a len : Nat) (ha : a < 4294967296) (hl : len ≤ 32) (fuel : Nat) (hf : 4294967296 ≤ fuel) :
+    Gen.driver_ipGenerator (SeqGlue.genEnv (netId a len) len (fun _ => false)) fuel ⟨[]⟩ () () ()
+      = some ⟨(hosts a len).map Int.ofNat⟩ := by
+  have hn : netId a len < 4294967296 := Nat.lt_of_le_of_lt (netId_le a len ha hl) ha
+  rw [src_ipGenerator (netId a len) len hn hl _ fuel hf, SeqGlue.sendAll_never _ (fun _ => rfl)]
+  simp [hosts]
+
+/-- cancelling stops the enumeration: when the context is first seen to have ended after `k` sends, the translated
+source returns having sent exactly the first `k` addresses (none when it was cancelled from the start). -/
+theorem src_cancel_stops (a len : Nat) (ha : a < 4294967296) (hl : len ≤ 32) (stop : Nat → Bool) (k : Nat)
+    (hk : stop k = true) (hj : ∀ j, j < k → stop j = false) (fuel : Nat) (hf : 4294967296 ≤ fuel) :
+    Gen.driver_ipGenerator (SeqGlue.genEnv a len stop) fuel ⟨[]⟩ () () ()
+      = some ⟨((gen a len).take k).map Int.ofNat⟩ := by
+  rw [src_ipGenerator a len ha hl stop fuel hf,
+    SeqGlue.sendAll_stops stop _ [] k (by simpa using hk) (by simpa using hj)]
+  simp [List.map_take]
+
+/-- the translated source run on 192.168.1.108/30 (unmasked address .110): sends .109 and .110; cancelled after one
+send: only .109 -/
+example : (Gen.driver_ipGenerator (SeqGlue.genEnv 3232235886 30 (fun _ => false)) 10 ⟨[]⟩ () () ()).map SeqGlue.GWorld.sent
+    = some [3232235885, 3232235886] := by decide
+example : (Gen.driver_ipGenerator (SeqGlue.genEnv 3232235886 30 (fun k => k == 1)) 10 ⟨[]⟩ () () ()).map SeqGlue.GWorld.sent
+    = some [3232235885] := by decide
 
 end LLRP.C16
